@@ -4,6 +4,7 @@ import (
 	"context"
 	"net/http"
 	"net/url"
+	"pgregory.net/rapid"
 )
 
 type ctxKey struct{}
@@ -32,4 +33,12 @@ func newRequest(tag any, src string) *http.Request {
 // built from a truncated, trimmed or case-folded token merges two sources
 var srcNames = []string{"10.0.0.1", "10.0.0.10", "10.0.0.11", "110.0.0.1", "fe80::1", "FE80::1", "x", "X", "10.0.0.1 ", "0.0.0.1", "10.0.0.2", "10.0.0.20", "[::1]", "::1"}
 
-func srcName(i int) string { return srcNames[i] } // at most 12 sources are ever drawn
+// srcBase rotates the list per run, so that any neighbouring tokens (the pairs that differ only in case, by a
+// trailing blank, by one digit) can be the first sources of a run with few sources.
+var srcBase int
+
+func drawSrcBase(rt *rapid.T) {
+	srcBase = rapid.IntRange(0, len(srcNames)-1).Draw(rt, "source-tokens-from")
+}
+
+func srcName(i int) string { return srcNames[(srcBase+i)%len(srcNames)] } // at most 12 sources are ever drawn
